@@ -405,12 +405,12 @@ Definition eval (e : E) (q : st) : st * vres := drive fuel (ev_start e (s_u q)) 
 Definition eval_opt (e : option E) (q : st) : st * vres :=
   match e with None => (q, VVal nil_v) | Some e => eval e q end.
 (* a missing for-condition is true *)
-Definition eval_cond (e : option E) (q : st) : st * option bool * outcome :=
+Definition eval_cond (e : option E) (q : st) : st * (bool + outcome) :=
   match e with
-  | None => (q, Some true, ONormal)
+  | None => (q, inl true)
   | Some e => match eval e q with
-              | (q', VVal v) => (q', Some (truthy v), ONormal)
-              | (q', VOut o) => (q', None, o)
+              | (q', VVal v) => (q', inl (truthy v))
+              | (q', VOut o) => (q', inr o)
               end
   end.
 
@@ -451,7 +451,7 @@ Fixpoint for_loop (m : nat) (c post : option E) (body : list (cstmt E)) (q : st)
   | O => (q, OFuel)
   | S m' =>
       match eval_cond c q with
-      | (q1, Some true, _) =>
+      | (q1, inl true) =>
           match exec_list body q1 with
           | (q2, ONormal) | (q2, OContinue) =>
               match eval_opt post q2 with
@@ -461,8 +461,8 @@ Fixpoint for_loop (m : nat) (c post : option E) (body : list (cstmt E)) (q : st)
           | (q2, OBreak) => (q2, ONormal)
           | r => r
           end
-      | (q1, Some false, _) => (q1, ONormal)
-      | (q1, None, o) => (q1, o)
+      | (q1, inl false) => (q1, ONormal)
+      | (q1, inr o) => (q1, o)
       end
   end.
 
@@ -553,29 +553,26 @@ Fixpoint run_lists (ls : list (list (cstmt E))) (q : st) : st * outcome :=
               end
   end.
 
-(* does action [a] match the current record?  [inr] = in-range flag of this action *)
-Definition match_action (a : action E) (inr : bool) (q : st) : st * option bool * bool * outcome :=
+(* does action [a] match the current record?  [inr] = in-range flag of this action; the
+   result is (state, matched or the outcome that stopped the evaluation, new in-range flag) *)
+Definition eval_bool (p : E) (q : st) : st * (bool + outcome) :=
+  match xeval p q with
+  | (q1, VVal v) => (q1, inl (truthy v))
+  | (q1, VOut o) => (q1, inr o)
+  end.
+Definition match_action (a : action E) (inr_ : bool) (q : st) : st * (bool + outcome) * bool :=
   match a_pat a with
-  | [] => (q, Some true, inr, ONormal)
-  | [p] => match xeval p q with
-           | (q1, VVal v) => (q1, Some (truthy v), inr, ONormal)
-           | (q1, VOut o) => (q1, None, inr, o)
-           end
+  | [] => (q, inl true, inr_)
+  | [p] => (eval_bool p q, inr_)
   | p1 :: p2 :: _ =>
-      let start :=
-        if inr then (q, Some true, ONormal)
-        else match xeval p1 q with
-             | (q1, VVal v) => (q1, Some (truthy v), ONormal)
-             | (q1, VOut o) => (q1, None, o)
-             end in
-      match start with
-      | (q1, Some true, _) =>
-          match xeval p2 q1 with
-          | (q2, VVal v) => (q2, Some true, negb (truthy v), ONormal)
-          | (q2, VOut o) => (q2, None, true, o)
+      match (if inr_ then (q, inl true) else eval_bool p1 q) with
+      | (q1, inl true) =>
+          match eval_bool p2 q1 with
+          | (q2, inl stop) => (q2, inl true, negb stop)
+          | (q2, inr o) => (q2, inr o, true)
           end
-      | (q1, Some false, _) => (q1, Some false, false, ONormal)
-      | (q1, None, o) => (q1, None, inr, o)
+      | (q1, inl false) => (q1, inl false, false)
+      | (q1, inr o) => (q1, inr o, inr_)
       end
   end.
 
@@ -591,10 +588,10 @@ Fixpoint run_actions (acts : list (action E)) (inrs : list bool) (q : st) : st *
   match acts with
   | [] => (q, [], ONormal)
   | a :: t =>
-      let inr := match inrs with b :: _ => b | [] => false end in
+      let flag := match inrs with b :: _ => b | [] => false end in
       let inrs' := match inrs with _ :: r => r | [] => [] end in
-      match match_action a inr q with
-      | (q1, Some true, inr', _) =>
+      match match_action a flag q with
+      | (q1, inl true, inr') =>
           let r := match a_body a with
                    | Some body =>
                        if action_prints (a_body a) then print_q q1   (* compiled to no code *)
@@ -607,8 +604,8 @@ Fixpoint run_actions (acts : list (action E)) (inrs : list bool) (q : st) : st *
           | (q2, OAbort ANextfile) => (mkst (skip_file (s_u q2)) (s_x q2) (s_tr q2), inr' :: inrs', ONormal)
           | (q2, o) => (q2, inr' :: inrs', match o with ONormal => OStuck | _ => o end)
           end
-      | (q1, Some false, inr', _) => let '(q3, rest, o) := run_actions t inrs' q1 in (q3, inr' :: rest, o)
-      | (q1, None, inr', o) => (q1, inr' :: inrs', o)
+      | (q1, inl false, inr') => let '(q3, rest, o) := run_actions t inrs' q1 in (q3, inr' :: rest, o)
+      | (q1, inr o, inr') => (q1, inr' :: inrs', o)
       end
   end.
 
